@@ -150,16 +150,26 @@ theorem kepler_half_revolution {e : ℝ} (he0 : 0 ≤ e) (he1 : e < 1) (M : ℝ)
     rw [hf1]
     constructor <;> nlinarith
 
-/-- "the true anomaly satisfies tan(v/2) = sqrt((1+e)/(1-e)) tan(E/2)" for the returned pair `(E, v)`. -/
+/-- "the true anomaly satisfies tan(v/2) = sqrt((1+e)/(1-e)) tan(E/2)" for the returned pair `(E, v)`; both half
+    angles are strictly inside `(-90°, 90°)`, so the tangents are genuine (`cos ≠ 0`), not Mathlib's junk value. -/
 theorem true_anomaly_relation {e : ℝ} (he0 : 0 ≤ e) (he1 : e < 1) (M : ℝ) :
     ∃ E v, kepler_equation e M = .ok (E, v) ∧
-      Real.tan (pradians v / 2) = Real.sqrt ((1 + e) / (1 - e)) * Real.tan (pradians E / 2) := by
+      Real.tan (pradians v / 2) = Real.sqrt ((1 + e) / (1 - e)) * Real.tan (pradians E / 2) ∧
+      Real.cos (pradians E / 2) ≠ 0 ∧ Real.cos (pradians v / 2) ≠ 0 := by
   obtain ⟨f, m, e0, xr, hred, hf, hx0, hx1, hxm, hs, h1, h2, h3, heq, hA, hB⟩ := kepler_struct he0 he1 M
-  refine ⟨_, _, heq, ?_⟩
-  rw [radians_degrees, radians_degrees]
-  have : 2 * Real.arctan (Real.sqrt ((1 + e) / (1 - e)) * Real.tan (e0 * f / 2)) / 2
-      = Real.arctan (Real.sqrt ((1 + e) / (1 - e)) * Real.tan (e0 * f / 2)) := by ring
-  rw [this, Real.tan_arctan]
+  have hg := gap_pos 34
+  have hpi := Real.pi_pos
+  refine ⟨_, _, heq, ?_, ?_, ?_⟩
+  · rw [radians_degrees, radians_degrees]
+    have : 2 * Real.arctan (Real.sqrt ((1 + e) / (1 - e)) * Real.tan (e0 * f / 2)) / 2
+        = Real.arctan (Real.sqrt ((1 + e) / (1 - e)) * Real.tan (e0 * f / 2)) := by ring
+    rw [this, Real.tan_arctan]
+  · rw [radians_degrees]
+    apply (Real.cos_pos_of_mem_Ioo ⟨?_, ?_⟩).ne' <;> rcases hf with h | h <;> rw [h] <;> linarith
+  · rw [radians_degrees]
+    have : 2 * Real.arctan (Real.sqrt ((1 + e) / (1 - e)) * Real.tan (e0 * f / 2)) / 2
+        = Real.arctan (Real.sqrt ((1 + e) / (1 - e)) * Real.tan (e0 * f / 2)) := by ring
+    rw [this]; exact (Real.cos_arctan_pos _).ne'
 
 /-- The returned `E` is within `(π/2)/2^34` rad of EVERY solution `x ∈ (-π, π]` of Kepler's equation for an
     anomaly congruent to `M` (the bracket invariant carried through reduction and reflection). -/
@@ -229,7 +239,7 @@ theorem kepler_any_turns {e : ℝ} (he0 : 0 ≤ e) (he1 : e < 1) (M : ℝ) :
       -180 < E ∧ E < 180 := by
   obtain ⟨j, hj⟩ := reduce_deg_congr M
   obtain ⟨E, v, h, k, hk⟩ := kepler_residual he0 he1 (reduce_deg M)
-  obtain ⟨E', v', h', htan⟩ := true_anomaly_relation he0 he1 (reduce_deg M)
+  obtain ⟨E', v', h', htan, _, _⟩ := true_anomaly_relation he0 he1 (reduce_deg M)
   obtain ⟨E'', v'', h'', r, k2, _, _, _, hlo, hhi⟩ := kepler_half_revolution he0 he1 (reduce_deg M)
   rw [h] at h' h''
   simp only [Except.ok.injEq, Prod.mk.injEq] at h' h''
@@ -352,6 +362,50 @@ theorem length_orbit_bounds {e a : ℝ} (he0 : 0 ≤ e) (he1 : e < 1) (ha : 0 < 
   split
   · exact ⟨L1, h1, h1a, h1b⟩
   · exact ⟨L2, h2, h2a, h2b⟩
+
+/-- "… and is continuous across the formula switch at e = 0.95" — what is true: at `e = 0.95` the formula used below
+    the switch (`L₁`, the left limit of `length_orbit`) and the one used from the switch on (`L₂ = length_orbit(0.95, a)`)
+    differ by a relative jump between 1.4e-4 and 1.5e-4 (numerically 1.4409e-4), for every `a > 0`.  Both formulas are
+    approximations of the perimeter accurate to about 1e-4 there; the harness checks the jump against 2e-4. -/
+theorem length_switch_jump {a : ℝ} (ha : 0 < a) :
+    ∃ L1 L2, length_low a (a * Real.sqrt (1 - 0.95 * 0.95)) = .ok L1 ∧ length_orbit 0.95 a = .ok L2 ∧
+      1.4e-4 * L2 < L1 - L2 ∧ L1 - L2 < 1.5e-4 * L2 := by
+  have hpi := Real.pi_pos
+  set t := Real.sqrt (1 - 0.95 * 0.95) with htdef
+  have ht0 : 0 < t := Real.sqrt_pos.mpr (by norm_num)
+  have ht : t ^ 2 = 0.0975 := by rw [htdef, Real.sq_sqrt (by norm_num)]; norm_num
+  have hw0 : 0 < Real.sqrt t := Real.sqrt_pos.mpr ht0
+  have hw : Real.sqrt t ^ 2 = t := Real.sq_sqrt ht0.le
+  have hSarg : 0 < (1 + 3 * t) * (3 + t) := by positivity
+  have hS0 : 0 < Real.sqrt ((1 + 3 * t) * (3 + t)) := Real.sqrt_pos.mpr hSarg
+  have hS : Real.sqrt ((1 + 3 * t) * (3 + t)) ^ 2 = (1 + 3 * t) * (3 + t) := Real.sq_sqrt hSarg.le
+  obtain ⟨hlo, hhi⟩ := switch_scalar ht0 ht hw0 hw hS0 hS
+  have hb : 0 ≤ a * t := by positivity
+  -- the two results as π a × (scalar expression)
+  have hG : Real.sqrt (a * (a * t)) = a * Real.sqrt t := by
+    rw [← mul_assoc, Real.sqrt_mul (by positivity), Real.sqrt_mul_self ha.le]
+  have hH : 2 * a * (a * t) / (a + a * t) = a * (2 * t / (1 + t)) := by
+    have : a ≠ 0 := ha.ne'
+    have : 1 + t ≠ 0 := by linarith
+    field_simp
+  have hS' : Real.sqrt ((a + 3 * (a * t)) * (3 * a + a * t)) = a * Real.sqrt ((1 + 3 * t) * (3 + t)) := by
+    have : (a + 3 * (a * t)) * (3 * a + a * t) = a * a * ((1 + 3 * t) * (3 + t)) := by ring
+    rw [this, Real.sqrt_mul (by positivity), Real.sqrt_mul_self ha.le]
+  have hL1 : π * (21 * ((a + a * t) / 2) - 2 * Real.sqrt (a * (a * t)) - 3 * (2 * a * (a * t) / (a + a * t))) / 8
+      = π * a * ((21 * ((1 + t) / 2) - 2 * Real.sqrt t - 3 * (2 * t / (1 + t))) / 8) := by
+    rw [hG, hH]; ring
+  have hL2 : π * (3 * (a + a * t) - Real.sqrt ((a + 3 * (a * t)) * (3 * a + a * t)))
+      = π * a * (3 * (1 + t) - Real.sqrt ((1 + 3 * t) * (3 + t))) := by
+    rw [hS']; ring
+  have horb : length_orbit 0.95 a = length_high a (a * t) := by
+    rw [length_orbit_eq (by norm_num), if_neg (by norm_num)]
+  refine ⟨_, _, length_low_eq ha hb, by rw [horb]; exact length_high_eq ha hb, ?_, ?_⟩
+  · rw [hL1, hL2]
+    have hpa : 0 < π * a := by positivity
+    nlinarith
+  · rw [hL1, hL2]
+    have hpa : 0 < π * a := by positivity
+    nlinarith
 
 /-! ## Phase angle and illuminated fraction -/
 
